@@ -1,10 +1,11 @@
 /-
   C01.3 — the compiler and the backtracking VM agree with the reference semantics on a
   fragment of jq with closures, recursion and error handling (Model/MiniVM.lean): identity,
-  constants, pipe, comma, `.[]`, `empty`, `[q]`, `error`, `try b`, `try b catch h`,
-  one-filter-parameter functions `def f(g): …` with arbitrary recursion, the parameter `g`,
-  calls `f(a)` whose argument is passed as a closure.  The text of the iterator error that
-  `catch` receives is a parameter (`IterMsg`): the theorems hold for every message function.
+  constants, pipe, comma, `.[]`, `.name`, `empty`, `[q]`, `error`, `try b`, `try b catch h`,
+  `if c then a else b end`, `l // r`, one-filter-parameter functions `def f(g): …` with arbitrary recursion, the parameter `g`,
+  calls `f(a)` whose argument is passed as a closure.  What the fragment takes from the host
+  library — `funcIndex2` behind `.name` and the texts of the two error messages `catch` can
+  receive — is a parameter (`IterMsg`): the theorems hold for every choice of it.
 
   `compile` emits the instructions compiler.go emits for these forms with all optimisations
   off and `step` is the `Next()` loop for the opcodes they use; both are tied to the code on
